@@ -109,7 +109,7 @@ func c05R1(c *Ctx, r *Report) {
 		}
 		for _, spec := range []struct {
 			rule, method string
-			write      bool
+			write        bool
 		}{{"C05.R1.string-reads", "String", false}, {"C05.R1.parse-writes", "parse", true}} {
 			fn := c.ssaFunc(t.Name + "." + spec.method)
 			if fn == nil {
